@@ -227,7 +227,7 @@ func init() {
 				}
 				quiesce()
 				k := vrt.Choose(nconn, "which-connection-fails")
-				order := vrt.Choose(7, "who-sends") // F16PENDING: 8 once the repair of F16 is in /repo
+				order := vrt.Choose(8, "who-sends")
 				r.sa[k].Reset()
 				switch order {
 				case 4:
